@@ -131,11 +131,20 @@ def set_transfer_tables(bt, tag, cons):
 
 def connect(st):
     """base transfer objects between consecutive levels (Step keeps only the last one in .base_transfer)"""
-    bts = []
-    for l in range(len(st.levels) - 1):
-        fn = st._Step__transfer_dict[(st.levels[l], st.levels[l + 1])]
-        bts.append(fn.__self__)
-    return bts
+    return [TRANSFERS[(id(st.levels[l]), id(st.levels[l + 1]))] for l in range(len(st.levels) - 1)]
+
+
+# every BaseTransfer object is noted when it is constructed (public constructor; avoids reading the step's private transfer dictionary)
+TRANSFERS = {}
+_bt_init = BaseTransfer.__init__
+
+
+def _noting_init(self, fine_level, coarse_level, *a, **k):
+    _bt_init(self, fine_level, coarse_level, *a, **k)
+    TRANSFERS[(id(fine_level), id(coarse_level))] = self
+
+
+BaseTransfer.__init__ = _noting_init
 
 
 def fixedpoint_case(rep, Ms, sw, finter, nsweeps):
@@ -546,8 +555,8 @@ def _mg_run(d, Ms, setv, symbolic):
     ctl.it_fine([S_])
     out = [Lf.u[m][0] for m in range(1, Ms[0] + 1)]
     tabs = dict(Q=[np.array(L.sweep.coll.Qmat, dtype=float)[1:, 1:] for L in S_.levels], QD=[np.array(L.sweep.QI, dtype=float)[1:, 1:] for L in S_.levels],
-                R=[np.array(S_._Step__transfer_dict[(S_.levels[l], S_.levels[l + 1])].__self__.Rcoll, dtype=float) for l in range(len(Ms) - 1)],
-                P=[np.array(S_._Step__transfer_dict[(S_.levels[l], S_.levels[l + 1])].__self__.Pcoll, dtype=float) for l in range(len(Ms) - 1)])
+                R=[np.array(bt.Rcoll, dtype=float) for bt in connect(S_)],
+                P=[np.array(bt.Pcoll, dtype=float) for bt in connect(S_)])
     return out, tabs
 
 
